@@ -237,7 +237,11 @@ DSL_FLAGS = [("f", 0), ("fr", 1), ("c", 8), ("cr", 9), ("", 4), ("n", 4), ("nr",
 
 def gen_dsl_case(rng):
     mode = rng.random()
-    if mode < 0.75:
+    if mode < 0.12:
+        code = 4
+        pool = rng.sample(STRS + NUMS, 12)
+        prog = '@a[NR] = $v; end { for (e in sort_collection(get_values(@a))) { emit1 {"v": e} } }'
+    elif mode < 0.75:
         fl, code = rng.choice(DSL_FLAGS)
         pool = NATS if code in (10, 11) else rng.sample(STRS + NUMS, 12)
         prog = '@a[NR] = $v; end { for (e in sort(get_values(@a), "%s")) { emit1 {"v": e} } }' % fl
